@@ -89,6 +89,33 @@ def fixIsHeartbeat (f : Bytes) : Bool := getMsgType f == [48]
 /-- `msg.is_logout()`: `Type == '5'` -/
 def fixIsLogout (f : Bytes) : Bool := getMsgType f == [53]
 
+/-! ### well-formed FIX frames (the hypothesis of the FIX theorems; executable so that the harness can evaluate it on its inputs) -/
+
+/-- `8=ver␁9=ds␁` -/
+def fixHeader (ver ds : Bytes) : Bytes := [56, 61] ++ ver ++ [1, 57, 61] ++ ds ++ [1]
+
+/-- the parts `(ver, ds, body)` of a byte string of the shape `8=ver␁9=ds␁body` (`ver`, `ds` free of SOH) -/
+def fixParts (f : Bytes) : Option (Bytes × Bytes × Bytes) :=
+  match f with
+  | 56 :: 61 :: r =>
+    match r.dropWhile (· != 1) with
+    | 1 :: 57 :: 61 :: r2 =>
+      match r2.dropWhile (· != 1) with
+      | 1 :: body => some (r.takeWhile (· != 1), r2.takeWhile (· != 1), body)
+      | _ => none
+    | _ => none
+  | _ => none
+
+/-- **well-formed FIX frame** (as far as framing is concerned): `8=ver␁9=n␁` followed by exactly `n` bytes that start with
+    `35=` and 7 more bytes (the `10=xxx␁` trailer); `ver` contains no `=`; `n` is written in decimal digits.  (That the first
+    `35=` of such a frame is its MsgType field is a consequence: `find_header_none`.) -/
+def wfFixFrame (f : Bytes) : Bool :=
+  match fixParts f with
+  | some (ver, ds, body) =>
+      ver.all (· != 61) && !ds.isEmpty && ds.all isDigit && tag35.isPrefixOf body
+      && body.length == digitsVal ds + 7
+  | none => false
+
 /-! ### the reader machine -/
 
 /-- what a concrete reader supplies: `deserialize()` and the `(stop, skip)` classification of its result -/
